@@ -38,7 +38,7 @@ var tierBounds = []int64{1, 2, 4, 8, 16, 32}
 
 func genAmtCase(t *rapid.T) interface{} {
 	c := &AmtCase{}
-	c.Kind = rapid.SampledFrom([]string{"send", "send", "send", "deposit", "tohub"}).Draw(t, "kind")
+	c.Kind = rapid.SampledFrom([]string{"send", "send", "send", "deposit", "tohub", "tochain"}).Draw(t, "kind")
 	decs := []uint64{0, 1, 6, 8, 17, 18, 19, 24}
 	c.SrcDec = decs[rapid.IntRange(0, len(decs)-1).Draw(t, "srcdec")]
 	c.DstDec = decs[rapid.IntRange(0, len(decs)-1).Draw(t, "dstdec")]
@@ -265,6 +265,65 @@ func runAmtCase(ci interface{}, rec *pbt.Rec) *pbt.Failure {
 		}
 		if e.ExternalRecipient != rcpt.Hex() || e.Sender != sender.String() {
 			return pbt.Failf("wrong-parties", "pool entry %s -> %s", e.Sender, e.ExternalRecipient)
+		}
+		return nil
+
+	case "tochain":
+		// a deposit on the source chain that is forwarded to another external chain: the destination chain's
+		// rate applies to the converted amount, fee and commission come out of it
+		for bridge.FromExt(c.SrcDec, new(big.Int).Add(amount, fee)).BitLen() > 200 {
+			amount = new(big.Int).Rsh(amount, 32)
+			fee = new(big.Int).Rsh(fee, 32)
+			if amount.Sign() == 0 {
+				amount = big.NewInt(1)
+			}
+		}
+		ev := &mtypes.TransferToChainEvent{EventNonce: 1, ExternalCoinId: ids[src], Amount: sdk.NewIntFromBigInt(amount), Fee: sdk.NewIntFromBigInt(fee),
+			Sender: sim.ExtUser(2).Hex(), ReceiverChainId: dst, ExternalReceiver: rcpt.Hex(), ExternalHeight: 10, TxHash: "0xabc"}
+		any, _ := mtypes.PackEvent(ev)
+		if r := h.Deliver(&mtypes.MsgSubmitExternalEvent{Event: any, Signer: sdk.AccAddress(sim.ValAddr(0)).String(), ChainId: src}); r.Err != nil {
+			return pbt.Failf("harness", "claim rejected: %v", r.Err)
+		}
+		supBefore := h.Supply("hub")
+		if err := h.End(); err != nil {
+			return nil
+		}
+		hubAmt, hubFee := bridge.FromExt(c.SrcDec, amount), bridge.FromExt(c.SrcDec, fee)
+		// holders are looked up by the event's sender and receiver (hex, 0x stripped)
+		best2 := new(big.Int)
+		if c.HolderForm != 2 && holderOfRcpt != nil {
+			best2 = holderOfRcpt
+		}
+		comm := refCommission(c.Rate, tierOf(best2), hubAmt)
+		pool := h.Pool(dst)
+		rest := new(big.Int).Sub(hubAmt, comm)
+		rec.NonTrivial = true
+		if hubAmt.Sign() == 0 {
+			// nothing was locked in hub units (truncation): nothing can be forwarded
+			if len(pool) != 0 || h.Supply("hub").Cmp(supBefore) != 0 {
+				return pbt.Failf("zero-deposit-forwarded", "a forwarded deposit worth 0 hub units left %d pool entries / changed supply", len(pool))
+			}
+			return nil
+		}
+		if rest.Cmp(hubFee) < 0 {
+			if len(pool) != 0 || h.Supply("hub").Cmp(supBefore) != 0 {
+				return pbt.Failf("underfunded-transfer-applied", "cross-chain transfer of %s with fee %s (commission %s) cannot pay its fee but left %d pool entries / changed supply", hubAmt, hubFee, comm, len(pool))
+			}
+			return nil
+		}
+		if len(pool) != 1 {
+			return pbt.Failf("pool-entry-count", "%d pool entries on %s after one forwarded deposit (amount %s, fee %s, commission %s)", len(pool), dst, hubAmt, hubFee, comm)
+		}
+		e := pool[0]
+		wantTok := bridge.ToExt(c.DstDec, new(big.Int).Sub(rest, hubFee))
+		if e.ValCommission.Amount.BigInt().Cmp(bridge.ToExt(c.DstDec, refCommission(c.Rate, 0, hubAmt))) > 0 {
+			return pbt.Failf("commission-above-rate", "forwarded deposit charged commission %s, the destination token's rate %s allows at most %s", e.ValCommission.Amount, c.Rate, bridge.ToExt(c.DstDec, refCommission(c.Rate, 0, hubAmt)))
+		}
+		if e.ValCommission.Amount.BigInt().Cmp(bridge.ToExt(c.DstDec, comm)) != 0 || e.Token.Amount.BigInt().Cmp(wantTok) != 0 || e.Fee.Amount.BigInt().Cmp(bridge.ToExt(c.DstDec, hubFee)) != 0 {
+			return pbt.Failf("forwarded-amounts-not-exact", "forwarded deposit of %s (fee %s) scheduled amount %s fee %s commission %s; expected %s / %s / %s", hubAmt, hubFee, e.Token.Amount, e.Fee.Amount, e.ValCommission.Amount, wantTok, bridge.ToExt(c.DstDec, hubFee), bridge.ToExt(c.DstDec, comm))
+		}
+		if e.ExternalRecipient != rcpt.Hex() || e.RefundChainId != src || e.RefundAddress != sim.ExtUser(2).Hex() {
+			return pbt.Failf("wrong-parties", "forwarded deposit recorded as to=%s refund=%s@%s", e.ExternalRecipient, e.RefundAddress, e.RefundChainId)
 		}
 		return nil
 
